@@ -68,6 +68,84 @@ def key_paths(kind, ents):
     return keys
 
 
+# ---------------------------------------------------------------- feature classes of snapshots, path classes of per-instance attributes
+# (input classification that steers the enumeration; spec/Snapshot.tla says which pairs are Interesting)
+NODE_DIR = re.compile(r"((?:fsroot/)?sys/devices/system/node)/node(\d+)")
+CPU_DIR = re.compile(r"((?:fsroot/)?sys/devices/system/cpu)/cpu(\d+)")
+PATH_CLASSES = [
+    ("node.cpumap", "node", r"cpumap|cpulist"),
+    ("node.distance", "node", r"distance"),
+    ("node.meminfo", "node", r"meminfo|hugepages|hugepages/[^/]+/nr_hugepages"),
+    ("node.hmat", "node", r"access\d+/(initiators|targets)(/(?!power/|uevent$).+)?|memory_side_cache(/index\d+/.+)?"),
+    ("cpu.topology", "cpu", r"topology(/.+)?"),
+    ("cpu.cache", "cpu", r"cache(/index\d+/.+)?"),
+    ("cpu.online", "cpu", r"online"),
+    ("cpu.kind", "cpu", r"cpu_capacity|cpufreq/(cpuinfo_max_freq|base_frequency)|acpi_cppc(/.+)?|regs/identification(/.+)?"),
+]
+PATH_CLASSES = [(n, w, re.compile(rx)) for n, w, rx in PATH_CLASSES]
+
+
+def features(src, ents):
+    """feature classes of a snapshot (names of spec/Snapshot.tla SnFeatureClasses), read from its content"""
+    if src["kind"] == "x86":
+        return ["plain"]
+    root = snapshot_root(src)
+    names = {r for r, t in ents}
+
+    def rd(rel):
+        try:
+            return open(os.path.join(root, rel), errors="replace").read()
+        except OSError:
+            return None
+    nodes = {int(m.group(2)): r for r, t in ents if t == "dir" for m in [NODE_DIR.fullmatch(r)] if m}
+    cpus = {int(m.group(2)): r for r, t in ents if t == "dir" for m in [CPU_DIR.fullmatch(r)] if m}
+    feat = set()
+    for d in nodes.values():
+        cm = rd(d + "/cpumap")
+        if cm is not None and re.fullmatch(r"[0,\s]*", cm):
+            feat.add("cpuless")
+        if any((d + s) in names for s in ("/access0/initiators", "/access1/initiators", "/memory_side_cache")):
+            feat.add("hmat")
+    for r in names:
+        if re.fullmatch(r"(fsroot/)?proc/cpuinfo", r):
+            ci = rd(r) or ""
+            if re.search(r"cpu family\s*:\s*6\b", ci) and re.search(r"model\s*:\s*(87|133)\b", ci):
+                feat.add("knl")
+        if re.fullmatch(r"(fsroot/)?sys/devices/(system/cpu/types|cpu_core|cpu_atom)", r):
+            feat.add("kinds")
+    if sorted(nodes) != list(range(len(nodes))) or sorted(cpus) != list(range(len(cpus))):
+        feat.add("sparse")
+    for d in cpus.values():
+        if (d + "/topology") not in names or (rd(d + "/online") or "").strip() == "0":
+            feat.add("offline")
+    # CPU kinds: an attribute that ranks CPUs has different values on different CPUs (or is there for some CPUs only)
+    for attr in ("/cpu_capacity", "/cpufreq/base_frequency", "/cpufreq/cpuinfo_max_freq", "/acpi_cppc/nominal_perf", "/regs/identification/midr_el1"):
+        if len({(rd(d + attr) or "").strip() for d in cpus.values()}) > 1:
+            feat.add("kinds")
+    for d in {os.path.dirname(x) for x in cpus.values()}:
+        on, pr = rd(d + "/online"), rd(d + "/present")
+        if on is not None and pr is not None and on.strip() != pr.strip():
+            feat.add("offline")
+    return sorted(feat) or ["plain"]
+
+
+def instance_matrices(ents, rem):
+    """per path class, the matrix rows[instance][attribute] (1-based path indexes) of the removable paths below ONE numbered
+    NUMA node / CPU directory; instances in numeric order, attributes in path order"""
+    mats = {}
+    for i, (r, t) in enumerate(ents):
+        if not rem[i]:
+            continue
+        for which, rx in (("node", NODE_DIR), ("cpu", CPU_DIR)):
+            m = re.match(rx.pattern + "/(.+)", r)
+            if m:
+                attr = m.group(3)
+                pc = next((n for n, w, ax in PATH_CLASSES if w == which and ax.fullmatch(attr)), None)
+                if pc:              # the other per-instance files (power/*, uevent, memoryN links ...) stay with the striped single removals
+                    mats.setdefault(pc, {}).setdefault(int(m.group(2)), []).append(i + 1)
+    return [{"pc": pc, "rows": [rows[n] for n in sorted(rows)]} for pc, rows in sorted(mats.items())]
+
+
 TOP_KEYS = re.compile(r"(fsroot/)?(sys/devices/system/node|sys/devices/system/cpu/online|proc/cpuinfo)|(cpuid/)?hwloc-cpuid-info")
 
 
@@ -97,8 +175,10 @@ def make_table(src):
     classes = core_classes + rest_classes
     # share of the per-snapshot budget: every removal from a CPUID dump but the key ones makes hwloc refuse the dump as a whole
     w = 25 if kind == "x86" else 100
+    # "types" (object types of the unmodified snapshot with every type kept) is filled in by the first recorder pass
     return {"id": src["id"], "kind": kind, "np": len(ents), "removable": rem, "type": [t for r, t in ents], "last": [r[-1] for r, t in ents], "key": key, "top": top, "cand": cand, "rest": rest, "w": w,
-            "classes": [v for k, v in classes], "ncore": len(core_classes)}, ents, [k for k, v in classes]
+            "classes": [v for k, v in classes], "ncore": len(core_classes),
+            "feat": features(src, ents), "inst": instance_matrices(ents, rem) if kind != "x86" else [], "types": []}, ents, [k for k, v in classes]
 
 
 # ---------------------------------------------------------------- TLC model runs
@@ -116,7 +196,12 @@ def tla(v):
     raise TypeError(v)
 
 
-CONSTS = ["TableFile", "Sel", "NKeys", "NSingles", "NRest", "NClasses", "NRClasses", "PairMax", "Seed", "FlagSeqs", "CfgStride", "SimMode", "SimMax"]
+# object types (numbers of hwloc.h, named in spec/Topology.tla) whose filter the type-targeted configurations set:
+# Package, Die, Core, L1..L5, L1i..L3i, Group, MemCache; thorough adds Bridge, PCIDev, OSDev, Misc
+TARGET_QUICK = {1, 2, 3, 5, 6, 7, 8, 9, 10, 11, 12, 13, 15}
+TARGET_ALL = TARGET_QUICK | {16, 17, 18, 19}
+CONSTS = ["TableFile", "Sel", "NKeys", "NSingles", "NRest", "NClasses", "NRClasses", "PairMax", "Seed", "FlagSeqs", "CfgStride", "SimMode", "SimMax",
+          "InstFull", "InstMax", "NInstPlain", "InstCfgs", "InstFlagSeqs", "TargetTypes", "TargetModes", "TargetStride"]
 
 
 def gen_module(c):
@@ -151,7 +236,7 @@ def behaviour(ctx, hist, srcs, tables, compact=1):
             lines.append("env %s %s" % (n, v))
     body, removed = [], []
     for h in hist[1:]:
-        if h[0] == "rm":
+        if h[0] in ("rm", "rminst"):
             removed.append(h[1])
         elif h[0] == "rmclass":
             removed += tab["classes"][h[1] - 1]
@@ -160,7 +245,7 @@ def behaviour(ctx, hist, srcs, tables, compact=1):
         elif h[0] == "cfg":
             lines.append("env HWLOC_COMPONENTS " + h[1])
         elif h[0] == "load":
-            body.append("load %d %d %d" % (h[1], h[2], h[3]))
+            body.append("load %d %d %d" % (h[1], h[2], h[3]) + (" %d %d" % (h[4], h[5]) if len(h) > 5 and h[4] >= 0 else ""))
         elif h[0] == "xml_import":
             body.append("xml_import %d %d" % (h[1], h[2]))
         elif h[0] == "destroy":
@@ -172,7 +257,8 @@ def behaviour(ctx, hist, srcs, tables, compact=1):
             raise vlib.Infra("model emitted a non-removable path: %s %s" % (src["id"], rel))
         lines.append("remove " + rel)
     lines += body + ["cleanup"]
-    return (k, len(removed) > 0), "\n".join(lines) + "\n"
+    # third component: an estimate of the cost of recording it (loads x size of the snapshot), used to balance the recorders
+    return (k, len(removed) > 0), "\n".join(lines) + "\n", (300 + tab["np"]) * max(1, sum(1 for x in body if x.startswith(("load", "xml"))))
 
 
 def rebase(ctx, text):
@@ -249,11 +335,102 @@ def trimmed(event_line):
     """the event without the projections (they are megabytes)"""
     try:
         e = json.loads(event_line)
-        if "topos" in e:
-            e["topos"] = ["<%d objects>" % t.get("n", 0) for t in e["topos"]]
+        if "topos" in e:            # under another name: vlib's handle_rejections runs DiagTopo on every line that has "topos"
+            e["topo_sizes"] = ["<%d objects>" % t.get("n", 0) for t in e.pop("topos")]
         return json.dumps(e, separators=(",", ":"))
     except Exception:
         return event_line[:2000]
+
+
+def expanded(rej):
+    """the rejected event with the projections that compact mode left out (named by their digest only), taken from the
+    earlier events of the same behaviour"""
+    line = rej["line"]
+    try:
+        e = json.loads(line)
+        if "topos" not in e:
+            return line
+        need = [k for k in range(len(e["topos"])) if e["live"][k] == 1 and e["full"][k] == 0]
+        for prev in rej.get("blines") or []:
+            if not need:
+                break
+            if '"topos"' not in prev:
+                continue
+            o = json.loads(prev)
+            for k in list(need):
+                for j in range(len(o["topos"])):
+                    if o["full"][j] == 1 and o["pds"][j] == e["pds"][k]:
+                        e["topos"][k], e["full"][k] = o["topos"][j], 1
+                        need.remove(k)
+                        break
+        return json.dumps(e, separators=(",", ":"))
+    except Exception:
+        return line
+
+
+def record_balanced(ctx, exe, behs, costs, tracefile, env, timeout=3000):
+    """like ctx.record(parallel=NCPU), but the behaviours (sorted by snapshot, and snapshots differ by a factor 100 in
+    size) are cut into many more chunks of about equal estimated cost than there are processors, and the expensive chunks
+    start first; behaviour indexes stay global through HWV_BEH_BASE, the traces are concatenated in order"""
+    import concurrent.futures as cf
+    vlib.log("[%6.1fs] recording %d behaviours" % (time.time() - ctx.t0, len(behs)))
+    target = (sum(costs) or 1) / (6.0 * vlib.NCPU)
+    chunks, cur, acc, start = [], [], 0, 0
+    for i, (b, c) in enumerate(zip(behs, costs)):
+        cur.append(b)
+        acc += c
+        if acc >= target:
+            chunks.append((start, cur, acc))
+            cur, acc, start = [], 0, i + 1
+    if cur:
+        chunks.append((start, cur, acc))
+    e = dict(env, HWLOC_HIDE_ERRORS="2")
+
+    def one(ch):
+        first, texts, cost = ch
+        bp, tp = "%s.b%d" % (tracefile, first), "%s.t%d" % (tracefile, first)
+        open(bp, "w").write("".join(texts))
+        rc, out = vlib.run([exe, bp, tp], timeout=timeout, env=dict(e, HWV_BEH_BASE=str(first)))
+        os.unlink(bp)
+        # the scratch copy of this recorder (scr/w<pid>-<first> and its journal) is not needed any more
+        vlib.run(["sh", "-c", "rm -rf %s/w*-%d %s/w*-%d.journal" % (ctx.path("scr"), first, ctx.path("scr"), first)], timeout=600)
+        return rc, out, tp
+    order = sorted(chunks, key=lambda ch: -ch[2])
+    with cf.ThreadPoolExecutor(max_workers=vlib.NCPU) as ex:
+        res = dict(zip([ch[0] for ch in order], ex.map(one, order)))
+    for first in sorted(res):
+        rc, out, tp = res[first]
+        if rc != 0:
+            raise vlib.Infra("recorder failed rc=%d on the chunk starting at behaviour %d: %s" % (rc, first, out[-2000:]))
+    with open(tracefile, "w") as fo:
+        for first in sorted(res):
+            with open(res[first][2]) as fi:
+                shutil.copyfileobj(fi, fo)
+            os.unlink(res[first][2])
+
+
+def present_types(ctx, exe, srcs, tables, env):
+    """first pass of the recorder: the object types each unmodified snapshot has when every type is kept (default component
+    selection, no flag); they steer the type-targeted configurations and are not judged here (the main run repeats these loads)"""
+    behs, costs = [], []
+    for k, s in enumerate(srcs):
+        comp = {"linux": "linux,stop", "x86": "x86,stop"}.get(s["kind"], "x86,linux,stop")
+        key, text, cost = behaviour(ctx, [["snap", k + 1], ["cfg", comp, 0, -1, -1], ["load", 0, 0, 0, -1, -1], ["destroy"]], srcs, tables, compact=0)
+        behs.append(text)
+        costs.append(cost)
+    t = ctx.path("types.ndjson")
+    record_balanced(ctx, exe, behs, costs, t, env)
+    beh, res = None, {}
+    with open(t, errors="replace") as f:
+        for line in f:
+            if line.startswith('{"e":"Reset"'):
+                beh = json.loads(line)["beh"]
+            elif line.startswith('{"e":"load"') and beh is not None:
+                e = json.loads(line)
+                if e["ret"] == 0 and e["topos"][0].get("objs"):
+                    res[beh] = sorted({o["type"] for o in e["topos"][0]["objs"]})
+    os.unlink(t)
+    return [res.get(k, []) for k in range(len(srcs))]
 
 
 def explain(tracefile, rej):
@@ -289,11 +466,12 @@ def explain(tracefile, rej):
     return ""
 
 
-# ---------------------------------------------------------------- trace validation that resumes after a rejected behaviour
+# ---------------------------------------------------------------- trace validation that reports every rejected behaviour in one pass
 def validate(ctx, tracefile, nshards, timeout=3000, max_rej=12, heap="3g", quiet=False):
-    """like ctx.validate("TraceSnapshot", ...) but a shard is not validated again from its start after a rejection:
-    the specification's state is cleared by every Reset event (wf / eq only cache verdicts), so validation resumes
-    with the behaviour that follows the rejected one"""
+    """like ctx.validate("TraceSnapshot", ...) but one TLC run per shard reports every rejected behaviour: TraceSnapshot
+    counts and prints a rejected event (with the diagnostics DiagTopo / DiagXml / DiagSnapshot would give) and goes on with
+    the next behaviour - its state is cleared by every Reset event (wf / eq only cache verdicts); a trace is accepted only
+    if the final TAccept step (no rejection) is taken.  Returns the rejections (dicts like vlib's, plus "diag")."""
     import concurrent.futures as cf
     module = "TraceSnapshot"
     d = ctx.path("tv-%d-%d" % (os.getpid(), random.randrange(1 << 40)))
@@ -307,55 +485,111 @@ def validate(ctx, tracefile, nshards, timeout=3000, max_rej=12, heap="3g", quiet
         vlib.log("[%6.1fs] validating %s (%.1f MB, %d shards) against %s" % (time.time() - ctx.t0, os.path.basename(tracefile),
                                                                            os.path.getsize(tracefile) / 1e6, len(shards), module))
 
+    def inspec_diag(flat, pos, what, why):
+        """the diagnostics TraceSnapshot printed where it rejected event number pos (same wording as diag())"""
+        def tag(name, rx):
+            m = re.search(r'<<"%s", %d, %s>>' % (name, pos, rx), flat)
+            return m.group(1) if m else None
+        if what == "load" and why == "WellFormed":
+            res = "WellFormed clauses false after the call: first=%s all=%s" % (tag("FIRSTBAD", '"(.*?)"') or "?", tag("ALLBAD", r"(\{.*?\})") or "?")
+            inc = tag("MEMCCSINCLUSIONONLY", "(TRUE|FALSE)")
+            return res + (" setinclusions_only_memory_child_complete_cpuset=" + inc if inc else "")
+        if what == "xml_import" and why == "XmlSelfConsistent":
+            return ("equiv_diff(object fields, object types, top-level fields)=%s only_moved_memory_child_complete_cpuset=%s"
+                    % (tag("EQUIVDIFF", "(<<.*?>>)") or "?", tag("MEMCCSONLY", "(TRUE|FALSE)") or "?"))
+        if what in ("load", "xml_import"):
+            return "part of the %s relation that is false: %s" % (what, why)
+        return ""
+
     def one(shard):
-        rejs, nacc, nev = [], 0, 0
+        """validate one piece: the specification reports every rejected event (REJECT lines) and goes on with the next
+        behaviour; when it cannot go on at all (an event outside the recorder's protocol, an evaluation error), the event
+        it stopped at is a rejection too and what follows that behaviour is cut into up to four pieces (new tasks)"""
         lines = [x for x in open(shard, errors="replace").read().split("\n") if x.strip()]
-        while lines:
-            open(shard, "w").write("\n".join(lines) + "\n")
-            meta = shard + ".meta"
-            cmd = ["java", "-XX:+UseParallelGC", "-XX:ParallelGCThreads=2", "-Xmx" + heap, vlib.JAVA_OPTS, "-cp", vlib.TLA_CP, "tlc2.TLC", "-noGenerateSpecTE",
-                   "-workers", "1", "-metadir", meta, "-config", module + ".cfg", module + ".tla"]
-            rc, out = vlib.run(cmd, cwd=d, timeout=timeout, env={"TRACE": shard})
-            shutil.rmtree(meta, ignore_errors=True)
-            st = vlib.parse_tlc_stats(out)
-            if rc == 124:
-                raise vlib.Infra("trace validation timed out on " + shard)
-            if st["distinct"] == 0 and "states generated" not in out:
-                raise vlib.Infra("TLC failed on %s:\n%s" % (shard, out[-3000:]))
-            k = st["distinct"] - 1
-            if k >= len(lines):
-                return rejs, nacc + sum(1 for x in lines if x.startswith('{"e":"Reset"')), nev + len(lines)
-            b0 = k
+        if not lines:
+            return [], 0, 0, []
+        meta = shard + ".meta"
+        cmd = ["java", "-XX:+UseParallelGC", "-XX:ParallelGCThreads=2", "-Xmx" + heap, vlib.JAVA_OPTS, "-cp", vlib.TLA_CP, "tlc2.TLC", "-noGenerateSpecTE",
+               "-workers", "1", "-metadir", meta, "-config", module + ".cfg", module + ".tla"]
+        rc, out = vlib.run(cmd, cwd=d, timeout=timeout, env={"TRACE": shard})
+        shutil.rmtree(meta, ignore_errors=True)
+        st = vlib.parse_tlc_stats(out)
+        if rc == 124:
+            raise vlib.Infra("trace validation timed out on " + shard)
+        if st["distinct"] == 0 and "states generated" not in out:
+            raise vlib.Infra("TLC failed on %s:\n%s" % (shard, out[-3000:]))
+        k = st["distinct"] - 1                      # events read; one more step (TAccept) when nothing was rejected
+        flat = re.sub(r"\s+", " ", out).replace("<< ", "<<").replace(" >>", ">>")
+        reported = sorted({(int(m.group(1)), m.group(2), m.group(3)) for m in re.finditer(r'<<"REJECT", (\d+), "(\w+)", "([^"]*)">>', flat)})
+        if k > len(lines) and reported:
+            raise vlib.Infra("TraceSnapshot accepted %s and reported rejections" % shard)
+        if k == len(lines) and not reported:
+            raise vlib.Infra("TraceSnapshot neither accepted %s nor reported a rejection:\n%s" % (shard, out[-2000:]))
+
+        def rejection(idx, why, dg):
+            b0 = idx
             while b0 > 0 and not lines[b0].startswith('{"e":"Reset"'):
                 b0 -= 1
-            b1 = k + 1
-            while b1 < len(lines) and not lines[b1].startswith('{"e":"Reset"'):
-                b1 += 1
             beh = None
-            for cand in (lines[k], lines[b0]):
+            for cand in (lines[idx], lines[b0]):
                 mm = re.search(r'"beh":(-?\d+)', cand)
                 if mm:
                     beh = int(mm.group(1))
                     break
+            return {"beh": beh, "line": lines[idx], "prev": lines[idx - 1] if idx > b0 else None, "reset": lines[b0], "why": why, "pos": idx - b0,
+                    "blines": lines[b0:idx], "diag": dg}
+        rejs = [rejection(pos - 1, "", inspec_diag(flat, pos, what, why)) for pos, what, why in reported if 1 <= pos <= len(lines)]
+        paths, end = [], len(lines)
+        if k < len(lines):                           # stopped at event k
             why = ""
             mm = re.search(r"Error: (.*)", out)
             if mm and "POSTCONDITION" not in mm.group(1).upper():
                 why = mm.group(1)[:300]
-            rejs.append({"beh": beh, "line": lines[k], "prev": lines[k - 1] if k > b0 else None, "reset": lines[b0], "why": why, "pos": k - b0})
-            nacc += sum(1 for x in lines[:b0] if x.startswith('{"e":"Reset"'))
-            nev += b0
-            lines = lines[b1:]
-            if len(rejs) >= max_rej:
-                break
-        return rejs, nacc, nev
+            rejs.append(rejection(k, why, None))
+            end = k
+            while end > 0 and not lines[end].startswith('{"e":"Reset"'):
+                end -= 1
+            b1 = k + 1
+            while b1 < len(lines) and not lines[b1].startswith('{"e":"Reset"'):
+                b1 += 1
+            rest = lines[b1:]
+            parts, cur, size, target = [], [], 0, sum(len(x) for x in rest) / 4.0 + 1
+            for x in rest:
+                if x.startswith('{"e":"Reset"') and cur and size >= target:
+                    parts.append(cur)
+                    cur, size = [], 0
+                cur.append(x)
+                size += len(x)
+            if cur:
+                parts.append(cur)
+            for j, part in enumerate(parts):
+                pp = "%s.%d" % (shard, j)
+                open(pp, "w").write("\n".join(part) + "\n")
+                paths.append(pp)
+        os.unlink(shard)
+        nres = sum(1 for x in lines[:end] if x.startswith('{"e":"Reset"'))
+        skipped = 0                                  # events from a reported rejection to the end of its behaviour are not judged
+        for pos, what, why in reported:
+            j = pos - 1
+            while j < end and (j == pos - 1 or not lines[j].startswith('{"e":"Reset"')):
+                j += 1
+            skipped += j - (pos - 1)
+        return rejs, nres - sum(1 for r in rejs if r["diag"] is not None), end - skipped, paths
 
     rejs = []
     with cf.ThreadPoolExecutor(max_workers=vlib.NCPU) as ex:
-        for r, nb, ne in ex.map(one, shards):
-            rejs += r
-            if not quiet:
-                ctx.accepted += nb
-                ctx.events += ne
+        futs = {ex.submit(one, s) for s in shards}
+        while futs:
+            done, futs = cf.wait(futs, return_when=cf.FIRST_COMPLETED)
+            for f in done:
+                r, nb, ne, parts = f.result()
+                rejs += r
+                if not quiet:
+                    ctx.accepted += nb
+                    ctx.events += ne
+                if len(rejs) < max_rej:
+                    futs |= {ex.submit(one, pp) for pp in parts}
+    rejs.sort(key=lambda r: (r["beh"] is None, r["beh"] or 0))
     if not os.environ.get("HWV_KEEP"):
         shutil.rmtree(d, ignore_errors=True)
     return rejs
@@ -385,8 +619,9 @@ def run(ctx, replay=None):
         check_infra(t)
         rej = validate(ctx, t, nshards=1, quiet=True)
         for r in rej:
-            r["why"] = " ".join(x for x in (r.get("why", ""), diag(ctx, r["line"]), explain(t, r)) if x)
+            r["why"] = " ".join(x for x in (r.get("why", ""), r.get("diag") or diag(ctx, r["line"]), explain(t, r)) if x)
             r["line"] = trimmed(r["line"])
+            r.pop("blines", None)
             if r.get("prev"):
                 r["prev"] = trimmed(r["prev"])
         for f in (p, t):
@@ -409,61 +644,117 @@ def run(ctx, replay=None):
     if os.environ.get("C18_ONLY"):          # development aid: restrict the run to the snapshots whose id matches
         srcs = [s for s in srcs if re.search(os.environ["C18_ONLY"], s["id"])]
     tables = [make_table(s) for s in srcs]
+    for (tab, ents, cn), ty in zip(tables, present_types(ctx, exe, srcs, tables, env)):
+        tab["types"] = ty
     tf = ctx.path("tables.ndjson")
     with open(tf, "w") as f:
         for tab, ents, cn in tables:
             f.write(json.dumps(tab) + "\n")
     nsnap = len(srcs)
     base = {"TableFile": tf, "Sel": set(range(1, nsnap + 1)), "Seed": ctx.seed, "SimMode": False, "SimMax": 40,
-            "FlagSeqs": {(0, 1)}, "PairMax": 0, "CfgStride": 2, "NKeys": 3, "NSingles": 6, "NRest": 3, "NClasses": 8, "NRClasses": 3}
+            "FlagSeqs": {(0, 1)}, "PairMax": 0, "CfgStride": 2, "NKeys": 3, "NSingles": 6, "NRest": 3, "NClasses": 8, "NRClasses": 3,
+            # per-instance attributes: every instance of the Interesting (feature class, path class) pairs, one instance of the other
+            # pairs; one configuration each, without INCLUDE_DISALLOWED
+            "InstFull": False, "InstMax": 150, "NInstPlain": 1, "InstCfgs": 1, "InstFlagSeqs": {(0,)},
+            # type-targeted configurations on the unmodified snapshots: the type removed with the rest default (always), and either
+            # removed with the rest kept or kept alone
+            "TargetTypes": TARGET_QUICK, "TargetModes": ((-1, 1), (0, 1), (1, 0)), "TargetStride": 2}
     hists = []
     if not thorough:
         hists += run_model(ctx, base, "enum")
         sim = dict(base, SimMode=True)
         hists += run_model(ctx, sim, "sim", simulate="num=%d" % (2 * nsnap), depth=16, workers=1)
     else:
-        c = dict(base, NKeys=40, NSingles=30, NRest=20, NClasses=40, NRClasses=25, CfgStride=4, FlagSeqs={(0, 1), (896, 897)})
+        tgt = dict(TargetTypes=TARGET_ALL, TargetModes=((-1, 1), (0, 1), (1, 0), (0, 2), (1, 2)), TargetStride=1)
+        c = dict(base, NKeys=40, NSingles=30, NRest=20, NClasses=40, NRClasses=25, CfgStride=4, FlagSeqs={(0, 1), (896, 897)},
+                 InstFull=True, InstMax=60, NInstPlain=3, InstCfgs=1, InstFlagSeqs={(0, 1)}, **tgt)
         hists += run_model(ctx, c, "enum")
-        c = dict(base, NKeys=0, NSingles=0, NRest=0, NClasses=0, NRClasses=0, PairMax=60, CfgStride=8)
+        c = dict(base, NKeys=0, NSingles=0, NRest=0, NClasses=0, NRClasses=0, PairMax=60, CfgStride=8, NInstPlain=0, TargetTypes=set())
         hists += run_model(ctx, c, "pairs")
-        sim = dict(base, SimMode=True, FlagSeqs={(0, 1), (896, 897), (1, 0)})
+        sim = dict(base, SimMode=True, FlagSeqs={(0, 1), (896, 897), (1, 0)}, **tgt)
         hists += run_model(ctx, sim, "sim", simulate="num=%d" % (12 * nsnap), depth=16, workers=1)
-    seen, behs = set(), []
+    seen, behs, cats = set(), [], {}
     for h in hists:
-        key, text = behaviour(ctx, h, srcs, tables)
+        key, text, cost = behaviour(ctx, h, srcs, tables)
         if text not in seen:
             seen.add(text)
-            behs.append((key, text))
+            behs.append((key, text, cost))
+            cat = (h[1][0] if h[1][0] != "cfg" else "nofault") + ("+typefilter" if any(x[0] == "cfg" and len(x) > 4 and x[3] >= 0 for x in h) else "")
+            cats[cat] = cats.get(cat, 0) + 1
+    ctx.extra["behaviours_by_fault_and_configuration_class"] = cats
+    if os.environ.get("C18_DRY"):           # development aid: what would be recorded
+        vlib.log("behaviours:", len(behs), json.dumps(cats, sort_keys=True))
+        for k, (tab, ents, cn) in enumerate(tables):
+            vlib.log("  %-50s feat=%s types=%s inst=%s n=%d" % (tab["id"], ",".join(tab["feat"]), tab["types"], {m["pc"]: len(m["rows"]) for m in tab["inst"]},
+                                                                sum(1 for kk, t, c in behs if kk[0] == k)))
+        ctx.cleanup()
+        return 0
     behs.sort(key=lambda x: x[0])            # by snapshot, the unmodified snapshot first: consecutive projections repeat
-    behs = [t for k, t in behs]
+    costs = [c for k, t, c in behs]
+    behs = [t for k, t, c in behs]
     ctx.samples = [behs[0], behs[len(behs) // 2], behs[-1]]
     ctx.extra.update({"snapshots": nsnap, "behaviours": len(behs), "removable_paths": sum(len(t[0]["cand"]) + len(t[0]["rest"]) for t in tables),
-                      "classes": sum(len(t[0]["classes"]) for t in tables)})
-    bf = ctx.path("behaviours.txt")
-    open(bf, "w").write("".join(behs))
+                      "classes": sum(len(t[0]["classes"]) for t in tables),
+                      "type_targeted_configurations": sum(1 for b in behs if re.search(r"(?m)^load 0 -?\d+ \d+ \d+ \d+$", b)),
+                      "feature_classes": {c: sum(1 for t in tables if c in t[0]["feat"]) for c in sorted({x for t in tables for x in t[0]["feat"]})}})
     trf = ctx.path("trace.ndjson")
-    ctx.record(exe, bf, trf, timeout=3000, parallel=vlib.NCPU, env=env)
+    record_balanced(ctx, exe, behs, costs, trf, env)
     check_infra(trf)
     shutil.rmtree(ctx.path("scr"), ignore_errors=True)
     os.makedirs(ctx.path("scr"), exist_ok=True)
-    # a shard is read into memory as a whole, and after a rejection its remainder is read again: keep shards small
+    # a shard is read into memory as a whole (by TLC and here): keep shards small
     nshards = max(vlib.NCPU, int(os.path.getsize(trf) / 16e6) + 1)
     rejs = validate(ctx, trf, nshards=nshards, max_rej=200)
     os.unlink(trf)
     # every rejected behaviour is run again alone in a fresh recorder (handle_rejections demands that); do these runs in parallel
+    # ... except those whose diagnostic (printed by TraceSnapshot where it rejected the event; for an event validation stopped
+    # at, the DiagTopo / DiagXml run the replay would make, with the projections compact mode left out put back) already
+    # matches a recorded known finding: they are not reported as violations whatever the replay says, so the replay and its
+    # validation are skipped
     import concurrent.futures as cf
-    todo = sorted({behs[r["beh"]] for r in rejs if r.get("beh") is not None and 0 <= r["beh"] < len(behs)})
+    kf = vlib.load_known_findings(ctx.prop)
+    confirmed, groups = {}, {}
+    good = [r for r in rejs if r.get("beh") is not None and 0 <= r["beh"] < len(behs)]
+    for r in good:
+        # the diagnostic is a function of the projections of the event: one run per (kind of event, digests)
+        mm = re.search(r'"e":"(\w+)".*"pds":(\[[\[\]\d,]*\])\}\s*$', r["line"][:40] + r["line"][-400:], re.S)
+        groups.setdefault(mm.groups() if mm and '"topos"' in r["line"] and r.get("diag") is None else ("", id(r)), []).append(r)
+
+    def prematch(rs):
+        if rs[0].get("diag") is not None:           # TraceSnapshot printed the diagnostics where it rejected the event
+            return rs, rs[0]["diag"]
+        return rs, (diag(ctx, expanded(rs[0])) if rs[0]["line"].startswith(('{"e":"load"', '{"e":"xml_import"')) else "")
+    if kf and good:
+        with cf.ThreadPoolExecutor(max_workers=vlib.NCPU) as ex:
+            for rs, d in ex.map(prematch, list(groups.values())):
+                for r in rs:
+                    text, line = behs[r["beh"]], trimmed(r["line"])
+                    why = " ".join(x for x in (r.get("why", ""), d) if x)
+                    if d and vlib.match_known(kf, text, line + " #" + why):
+                        confirmed[text] = [dict(r, line=line, why=why, prev=trimmed(r["prev"]) if r.get("prev") else None, blines=None)]
+        ctx.extra["known_finding_hits_matched_without_replay"] = len(confirmed)
+    for r in rejs:
+        r.pop("blines", None)
+    todo = sorted({behs[r["beh"]] for r in good} - set(confirmed))
     with cf.ThreadPoolExecutor(max_workers=vlib.NCPU) as ex:
-        confirmed = dict(zip(todo, ex.map(replay_fn, todo)))
+        confirmed.update(zip(todo, ex.map(replay_fn, todo)))
     ctx.handle_rejections(rejs, behs, lambda text: confirmed[text] if text in confirmed else replay_fn(text))
     if not os.environ.get("HWV_KEEP"):          # 170k hard links and directories: rm is much faster than shutil.rmtree
         vlib.run(["rm", "-rf", ctx.path("corpus"), ctx.path("scr")], timeout=900)
     return ctx.finish(
-        rule="tuples (snapshot, fault set, component selection, filter preset, flag words) enumerated by TLC from MC_Snapshot.tla over the path "
-             "tables of every bundled Linux snapshot, CPUID dump and combined snapshot: no removal under every configuration; striped single "
-             "paths, whole attribute classes, pairs of core paths of the small snapshots (thorough) and simulated sets of up to 40 paths; each tuple "
-             "is executed on a hard-linked scratch copy: load twice, XML round trip, per flag word. A behaviour is non-trivial when a load was attempted.",
+        rule="tuples (snapshot, fault set, component selection, filter preset [+ one type filter], flag words) enumerated by TLC from MC_Snapshot.tla "
+             "over the path tables of every bundled Linux snapshot, CPUID dump and combined snapshot: no removal under every preset and, for every "
+             "type the unmodified snapshot really contains (first recorder pass), under the presets followed by one type filter (the type removed "
+             "with the rest default / kept, the type kept alone; thorough: also kept only when structuring, and the I/O and Misc types); striped "
+             "single paths; per-instance attributes of NUMA nodes and CPUs (nodeN/cpumap, distance, meminfo, initiators, cpuN/topology/*, cache/*, "
+             "online, capacity/frequency) removed singly: every instance for the Interesting (snapshot feature class, path class) pairs of "
+             "Snapshot.tla (CPU-less node, heterogeneous memory, KNL, sparse numbering x node attributes; offline CPUs, CPU kinds x CPU attributes), "
+             "one instance per path class otherwise; whole attribute classes, pairs of core paths of the small snapshots (thorough) and simulated "
+             "sets of up to 40 paths (half of them with a type filter); each tuple is executed on a hard-linked scratch copy: load twice, XML "
+             "round trip, per flag word. A behaviour is non-trivial when a load was attempted.",
         assumptions=["the recorder's projection digest (64-bit FNV-1a of the projection text) stands for the projection when the same "
                      "projection occurs again in a behaviour; equal projections always have equal digests",
-                     "fault sets are sampled (seeded stripes / simulation) except single and pairwise removals on the small snapshots",
+                     "fault sets are sampled (seeded stripes / simulation) except single and pairwise removals on the small snapshots and the "
+                     "per-instance removals of the Interesting pairs (quick: one rotating attribute per CPU instance, every attribute per NUMA node)",
+                     "a rejection whose diagnostic matches a recorded known finding is not replayed in a fresh process",
                      "RESTRICT_TO_*BINDING and IS_THISSYSTEM flag words are not driven on snapshots"])
